@@ -21,6 +21,9 @@ pub struct RangeCase {
     pub rules: Vec<u8>,
     /// diff mode (needed for affects): all files new
     pub diff_mode: bool,
+    /// the file starts with 70 000 empty lines (line numbers beyond 65 535)
+    #[serde(default)]
+    pub far: bool,
 }
 
 fn rule_attrs(rule: &str) -> Vec<Attr> {
@@ -110,7 +113,14 @@ pub fn check(c: &RangeCase, probe: &Probe) -> Verdict {
             o => o,
         })
         .collect();
-    let built = builder::build_raw(lang, &events, c.crlf);
+    let mut built = builder::build_raw(lang, &events, c.crlf);
+    if c.far {
+        built = built.with_blank_prefix(super::c03::FAR_LINES, c.crlf);
+        probe.class("line-numbers-beyond-65535");
+    }
+    if built.blocks.iter().any(|b| b.end_col > 65_535) {
+        probe.class("columns-beyond-65535");
+    }
     if langs::healthy(lang.id, &built.text) == Some(false) {
         return Verdict::Unspecified("generated source is not accepted by the language's own grammar");
     }
@@ -235,7 +245,7 @@ pub fn case_strategy() -> BoxedStrategy<RangeCase> {
         1 => Just(Ev::Blank),
     ];
     (0..SUFFIXES.len(), proptest::collection::vec(ev, 2..24), proptest::bool::weighted(0.1), proptest::collection::vec(0u8..12, 12), any::<bool>())
-        .prop_map(|(suffix, events, crlf, rules, diff_mode)| RangeCase { suffix, events, crlf, rules, diff_mode })
+        .prop_map(|(suffix, events, crlf, rules, diff_mode)| RangeCase { suffix, events, crlf, rules, diff_mode, far: false })
         .boxed()
 }
 
@@ -270,7 +280,17 @@ pub fn first_line_cases() -> Vec<RangeCase> {
                                     Ev::Close { spelling: 0, place: builder::Place { form: f as u8, ..Default::default() } },
                                     Ev::Code(4),
                                 ];
-                                out.push(RangeCase { suffix: si, events, crlf: (si + f + shape as usize) % 5 == 0, rules: vec![3], diff_mode: false });
+                                out.push(RangeCase { suffix: si, events: events.clone(), crlf: (si + f + shape as usize) % 5 == 0, rules: vec![3], diff_mode: false, far: false });
+                                if indent == 0 && shape == 0 && !lead && container == 0 && !doc {
+                                    // the same below 70 000 empty lines, and with a 70 000-byte attribute in front of the
+                                    // content: line numbers and columns beyond 65 535
+                                    out.push(RangeCase { suffix: si, events: events.clone(), crlf: false, rules: vec![3], diff_mode: false, far: true });
+                                    let mut wide = events;
+                                    if let Ev::Open { tag, .. } = &mut wide[1] {
+                                        tag.attrs.push(Attr::simple("note", &"x".repeat(70_000)));
+                                    }
+                                    out.push(RangeCase { suffix: si, events: wide, crlf: false, rules: vec![3], diff_mode: false, far: false });
+                                }
                             }
                         }
                     }
@@ -282,7 +302,7 @@ pub fn first_line_cases() -> Vec<RangeCase> {
 }
 
 pub fn run(run: &mut Run) {
-    run.rule = "enumerated first-line: under every suffix x comment form x indentation {0,2,5} x comment shape (one line, tag after a line break, text after the tag on a later line, both) x code before the comment x code / text after it on its closing line x Markdown container, one block whose first content line breaks its line-pattern (the key's column depends on where the start tag's comment ends). random: a generated source file of any of the 39 suffixes (every comment layout of the builder: own-line and trailing line comments, block comments with code before/after, tag on a later line of a multi-line comment, comments continuing after the tag, multi-line tags, several tags per comment, Markdown/HTML forms, indentation, CRLF) whose blocks each carry one rule from {keep-sorted asc/desc, keep-unique, line-pattern, keep-sorted with a numeric regex key in the middle of a line after multi-byte text, keep-unique with a regex, line-count, check-lua, affects (diff mode), check-ai (fake endpoint)}; content is whatever the file holds between the comments (code lines, key lines, nested tag comments, noise). Expected: key rules -> the key computed by the C06–C08 reference models on the constructed content, located by absolute offset; tag rules -> the constructed start tag from `<` to `>`. Every reported range is sliced out of the file's bytes and compared (text and numbers). Non-trivial = the tag is not on the last line of its comment / sits on a later line / is multi-line, or the key is on the tag's or end tag's line, preceded by multi-byte text, or after a comment form that swallows its line terminator.".into();
+    run.rule = "enumerated first-line: under every suffix x comment form x indentation {0,2,5} x comment shape (one line, tag after a line break, text after the tag on a later line, both) x code before the comment x code / text after it on its closing line x Markdown container, one block whose first content line breaks its line-pattern (the key's column depends on where the start tag's comment ends); the plainest shape of every form also below 70 000 empty lines and with a 70 000-byte attribute in the tag (line numbers and columns beyond 65 535). random: a generated source file of any of the 39 suffixes (every comment layout of the builder: own-line and trailing line comments, block comments with code before/after, tag on a later line of a multi-line comment, comments continuing after the tag, multi-line tags, several tags per comment, Markdown/HTML forms, indentation, CRLF) whose blocks each carry one rule from {keep-sorted asc/desc, keep-unique, line-pattern, keep-sorted with a numeric regex key in the middle of a line after multi-byte text, keep-unique with a regex, line-count, check-lua, affects (diff mode), check-ai (fake endpoint)}; content is whatever the file holds between the comments (code lines, key lines, nested tag comments, noise). Expected: key rules -> the key computed by the C06–C08 reference models on the constructed content, located by absolute offset; tag rules -> the constructed start tag from `<` to `>`. Every reported range is sliced out of the file's bytes and compared (text and numbers). Non-trivial = the tag is not on the last line of its comment / sits on a later line / is multi-line, or the key is on the tag's or end tag's line, preceded by multi-byte text, or after a comment form that swallows its line terminator.".into();
     run.assumptions = vec!["grammar-rejected sources are discarded; regex keys come from the fixed family with hand-written extractors".into()];
     run.enumerate("first-line", first_line_cases(), Some("one line-pattern block per suffix x comment form x indentation x comment shape x code before / after the comment x Markdown container"), check);
     run.random("ranges", run.tier.pick(2500, 60000), case_strategy, check);
